@@ -20,9 +20,10 @@ type c07Case struct {
 	RuleOrd   int    `json:"rule_ordinal"` // ordinal of the rule among the entries of File
 	RuleName  string `json:"rule_name"`
 	Reporter  string `json:"reporter"`
-	Form      string `json:"form"`      // disable | snooze-future | snooze-expired | file/disable | file/snooze-future | file/snooze-expired
-	Spelling  string `json:"spelling"`  // name | name(prom) | name(+tag)
-	Placement string `json:"placement"` // above-item | above-col0 | above-then-plain | above-then-blank | trail-first | trail-expr | trail-other | between-fields | after-last | file-top | file-between
+	Form      string `json:"form"`           // disable | snooze-future | snooze-expired | file/disable | file/snooze-future | file/snooze-expired
+	Spelling  string `json:"spelling"`       // name | name(prom) | name(+tag)
+	Placement string `json:"placement"`      // above-item | above-col0 | above-then-plain | above-then-blank | trail-first | trail-expr | trail-other | between-fields | after-last | file-top | file-between
+	Pair      string `json:"pair,omitempty"` // a second comment for the same check next to the first: expired-before | expired-after | same-twice
 }
 
 var detailLineRe = regexp.MustCompile(`:\d+`)
@@ -186,7 +187,15 @@ func runC07(c *core.Ctx) int {
 							}
 						}
 					}
-					jobs = append(jobs, job{b, c07Case{Variant: b.variant, Online: b.online, CRLF: b.crlf, File: p.file, RuleOrd: p.ord, RuleName: p.name, Reporter: p.reporter, Form: f, Spelling: sp, Placement: pl}})
+					cs := c07Case{Variant: b.variant, Online: b.online, CRLF: b.crlf, File: p.file, RuleOrd: p.ord, RuleName: p.name, Reporter: p.reporter, Form: f, Spelling: sp, Placement: pl}
+					jobs = append(jobs, job{b, cs})
+					// pairs of comments for the same check (insertion placements only), thinned
+					// (not after the last field: YAML gives the first line of a comment block there to the rule above
+					// and the following lines to the rule below, which no documentation promises either way)
+					if !strings.HasPrefix(pl, "trail-") && pl != "after-last" && (!c.Quick() || r.Intn(3) == 0) {
+						cs.Pair = []string{"expired-before", "expired-after", "same-twice"}[r.Intn(3)]
+						jobs = append(jobs, job{b, cs})
+					}
 				}
 			}
 		}
@@ -207,7 +216,10 @@ func runC07(c *core.Ctx) int {
 			run.Violate(*v)
 		}
 		if nontrivial {
-			run.Nontrivial(fmt.Sprintf("%s|%s|%s|%s", cs.Reporter, cs.Form, cs.Placement, cs.Spelling))
+			run.Nontrivial(fmt.Sprintf("%s|%s|%s|%s|%s", cs.Reporter, cs.Form, cs.Placement, cs.Spelling, cs.Pair))
+			if cs.Pair != "" {
+				run.Count("comment_pair_cases_"+cs.Pair, 1)
+			}
 			run.Distinct("reporters_targeted", cs.Reporter)
 		}
 		if j%(len(jobs)/6+1) == 0 {
@@ -226,7 +238,7 @@ func runC07(c *core.Ctx) int {
 		return 0
 	}
 	return run.Finish("exploration",
-		"base: the shared 'everything fires' scenario (15 alerting + 5 recording rules, configuration instantiating every check kind; offline and online against the engine-backed fake Prometheus; variants with locked blocks, rule{enable} lists, server tags; LF and CRLF files). For every (rule, reporter) pair present in the base report x comment form {disable, snooze future/expired, file/disable, file/snooze future/expired} x placement {above the item at item indent / column 0 / followed by a plain comment / by a blank line, trailing on first / expr / other field line, own line between fields, after the last field; file top, between rules} x spelling {name, name(prom), name(+tag)}: second run with the one comment inserted; oracle: H1 report multiset == base multiset with lines shifted minus exactly the targeted slice. Non-trivial = targeted slice non-empty while other reports exist; distinct by (reporter, form, placement, spelling).",
+		"base: the shared 'everything fires' scenario (15 alerting + 5 recording rules, configuration instantiating every check kind; offline and online against the engine-backed fake Prometheus; variants with locked blocks, rule{enable} lists, server tags; LF and CRLF files). For every (rule, reporter) pair present in the base report x comment form {disable, snooze future/expired, file/disable, file/snooze future/expired} x placement {above the item at item indent / column 0 / followed by a plain comment / by a blank line, trailing on first / expr / other field line, own line between fields, after the last field; file top, between rules} x spelling {name, name(prom), name(+tag)} (+ for a share: a second comment for the same check next to it - an expired snooze before or after, or the same comment twice): second run with the comment(s) inserted; oracle: H1 report multiset == base multiset with lines shifted minus exactly the targeted slice. Non-trivial = targeted slice non-empty while other reports exist; distinct by (reporter, form, placement, spelling).",
 		core.Floors{MinEvaluations: int64(len(jobs)), MinNontrivial: 60, MaxInconclusiveFrac: 0.02})
 }
 
@@ -337,6 +349,23 @@ func c07Check(c *core.Ctx, b *c07Base, cs c07Case) (viol *core.Violation, inconc
 	case "file-between":
 		insertAt, ins = first, []string{text}
 	}
+	if cs.Pair != "" && trailLine == 0 && len(ins) > 0 {
+		// an expired snooze changes nothing and a repeated comment says the same thing twice: the result must be
+		// what the first comment alone gives
+		indent := ins[0][:len(ins[0])-len(strings.TrimLeft(ins[0], " "))]
+		expiredText := "# pint snooze 2001-01-01T00:00:00Z " + target
+		if strings.HasPrefix(cs.Form, "file/") {
+			expiredText = "# pint file/snooze 2001-01-01T00:00:00Z " + target
+		}
+		switch cs.Pair {
+		case "expired-before":
+			ins = append([]string{indent + expiredText}, ins...)
+		case "expired-after":
+			ins = append([]string{ins[0], indent + expiredText}, ins[1:]...)
+		case "same-twice":
+			ins = append([]string{ins[0], ins[0]}, ins[1:]...)
+		}
+	}
 	var out []string
 	if trailLine > 0 {
 		out = append([]string{}, lines...)
@@ -435,7 +464,7 @@ func c07Check(c *core.Ctx, b *c07Base, cs c07Case) (viol *core.Violation, inconc
 		fb[n] = []byte(dd)
 	}
 	return &core.Violation{
-		Sig:   fmt.Sprintf("%s:%s:%s:%s", kind, cs.Form, cs.Placement, cs.Reporter),
+		Sig:   fmt.Sprintf("%s:%s:%s:%s", kind, cs.Form+map[bool]string{true: "+" + cs.Pair, false: ""}[cs.Pair != ""], cs.Placement, cs.Reporter),
 		What:  fmt.Sprintf("comment %q (%s) on rule %q: reports are not base minus the targeted slice. missing: %s | unexpected: %s", text, cs.Placement, cs.RuleName, core.Trunc(strings.Join(missing, " ;; "), 600), core.Trunc(strings.Join(extra, " ;; "), 600)),
 		Case:  cs,
 		Files: fb,
